@@ -20,6 +20,7 @@ RLIMIT = int(os.environ.get("VERIF_RLIMIT", "40"))
 
 VERIF_MSGS = [
     (re.compile(r"^postcondition not satisfied"), "post"),
+    (re.compile(r"^unable to prove post-condition of closure"), "post"),
     (re.compile(r"^precondition not satisfied"), "pre"),
     (re.compile(r"^precondition not met"), "pre"),  # verus wording for slice/array `s[i]` index obligations
     (re.compile(r"^possible arithmetic underflow/overflow"), "overflow"),
